@@ -50,8 +50,24 @@ class Summary:
     def __init__(self, se):
         self.ret = se.ret
         self.effects = se.param_effects()
-        self.ok = se.converged
+        self.ok = se.converged and not nested_param_writes(se)
         self.se = se
+
+
+def nested_param_writes(se):
+    """the body stores through a pointer that it reached through a parameter's pointee or
+    through a by-value parameter's field (`**p = ..`, a captured `&mut`): such effects are not
+    part of a summary (only `*param` is), so the body must not be inlined through one"""
+    def projection_of_param(t):
+        while t[0] in ("field", "deref", "downcast", "index", "cindex", "ref", "refv"):
+            t = t[1]
+        return t[0] == "param"
+
+    for st in se.final_states.values():
+        for k in st:
+            if k[0] == "deref" and k[1][0] != "param" and projection_of_param(k[1]):
+                return True
+    return False
 
 
 class Engine:
@@ -533,7 +549,7 @@ class SymExec:
         by_ref = b.local_ty(1) is not None and b.local_ty(1).k == "ref"
         env = ("refv", cl) if by_ref else cl
         base = self.eng.summary(path)
-        if base is None or not base.ok or base.ret is None or base.effects:
+        if base is None or not base.ok or base.ret is None or base.effects or not pure_body(base.se):
             return None
         out = []
         for i in range(n):
@@ -553,7 +569,7 @@ class SymExec:
                     keep[bb] = tg.get(d[1], info["otherwise"])
                 vn = self.fb.pruned(path, "at%d" % i, keep)
                 summ = self.eng.summary(vn) if vn else None
-                if summ is None or not summ.ok or summ.ret is None or summ.effects or any(x[0] == "phi" for x in walk(summ.ret)):
+                if summ is None or not summ.ok or summ.ret is None or summ.effects or not pure_body(summ.se) or any(x[0] == "phi" for x in walk(summ.ret)):
                     return None
             out.append(fold_consts(Subst(self, st, args, site).value(summ.ret)))
         return out
@@ -790,6 +806,25 @@ def walk(t):
                             yield from walk(y)
 
 
+def pure_body(se):
+    """no store through any pointer (captured references included) and no loop: the body only
+    computes its result"""
+    import cfg as _cfg
+
+    if _cfg.back_edges(se.body):
+        return False
+    for st in se.final_states.values():
+        if any(k[0] == "deref" for k in st):
+            return False
+    for (bi, si), (loc, v) in se.assigns.items():
+        root = loc
+        while root[0] in ("field", "index", "cindex", "subslice", "downcast"):
+            root = root[1]
+        if root[0] != "local":
+            return False
+    return True
+
+
 _BITS = {"u8": 8, "u16": 16, "u32": 32, "u64": 64, "usize": 64, "u128": 128}
 
 
@@ -857,7 +892,12 @@ def fold_consts(t):
         return ("call", t[1], tuple(fold_consts(a) for a in t[2]), t[3])
     if k == "agg":
         return ("agg", t[1], t[2], t[3], tuple(fold_consts(a) for a in t[4]))
-    if k in ("ref", "refv", "deref"):
+    if k == "deref":
+        inner = fold_consts(t[1])
+        if inner[0] == "refv" or (inner[0] == "ref" and inner[1][0] == "agg"):
+            return inner[1]     # the pointee of a reference to a value is that value
+        return ("deref", inner)
+    if k in ("ref", "refv"):
         return (k, fold_consts(t[1])) + t[2:]
     return t
 
